@@ -796,10 +796,44 @@ mod verif_cex {
                 &mut cases,
             );
         }
+        // Quoted headers (git's C-style quoting of "unusual" names): the key is the path as git meant it,
+        // BYTE for byte -- a name need not be valid UTF-8 (C15: "resolved exactly as git wrote them").
+        {
+            use std::os::unix::ffi::OsStrExt;
+            let quoted: [(&str, &[u8]); 8] = [
+                ("caf\\303\\251.py", "caf\u{e9}.py".as_bytes()),
+                ("caf\\351.py", b"caf\xe9.py"),
+                ("n\\200.py", b"n\x80.py"),
+                ("a\\tb.py", b"a\tb.py"),
+                ("q\\\"uote.py", b"q\"uote.py"),
+                ("back\\\\slash.py", b"back\\slash.py"),
+                ("b/x\\303\\251.py", "b/x\u{e9}.py".as_bytes()),
+                ("d\\351/x.py", b"d\xe9/x.py"),
+            ];
+            for (escaped, want) in quoted {
+                let diff = format!(
+                    "diff --git \"a/{escaped}\" \"b/{escaped}\"\nindex 1111111..2222222 100644\n--- \"a/{escaped}\"\n+++ \"b/{escaped}\"\n@@ -1 +1 @@\n-old\n+new\n"
+                );
+                cases += 1;
+                let got: Vec<Vec<u8>> = match line_changes_from_diff(&diff) {
+                    Ok(m) => m.keys().map(|k| k.as_os_str().as_bytes().to_vec()).collect(),
+                    Err(_) => vec![],
+                };
+                if got != vec![want.to_vec()] {
+                    cex_fail(
+                        "Da",
+                        "a C-quoted diff path is resolved to exactly the bytes git wrote (octal escapes are bytes, not characters; a name need not be valid UTF-8)",
+                        json!({"diff": diff}),
+                        json!({"keys_as_bytes": [want]}),
+                        json!({"keys_as_bytes": got}),
+                    );
+                }
+            }
+        }
         cex_none(
             "Da",
             cases,
-            "diffs of 1 file (12 paths incl. `b`, `a`, b/x, b/b/x, a/b/x, b/a/b/x, a path with spaces x 8 file kinds: modified, added, deleted, renamed+edited, pure rename, mode-only, binary, added-empty x 5 edit scripts x -U0/-U3), every ordered pair of paths x kinds, 2000 random 3-file diffs; values compared with the D-b oracle (KF1 carve-out applies); emptied-but-not-deleted files are not generated",
+            "8 hand-written quoted headers (UTF-8 octal, Latin-1 octal, 0x80, TAB, quote, backslash, b/ inside, non-UTF-8 directory) with the expected key bytes; diffs of 1 file (12 paths incl. `b`, `a`, b/x, b/b/x, a/b/x, b/a/b/x, a path with spaces x 8 file kinds: modified, added, deleted, renamed+edited, pure rename, mode-only, binary, added-empty x 5 edit scripts x -U0/-U3), every ordered pair of paths x kinds, 2000 random 3-file diffs; values compared with the D-b oracle (KF1 carve-out applies); emptied-but-not-deleted files are not generated",
         );
     }
 
